@@ -18,31 +18,63 @@ import BitstringModel.Gen.Src
 namespace BM.C03.Src
 open BM BM.C03
 
+/-! ## shape-agnostic proof vocabulary
+
+  The proofs below must not depend on HOW the source spells a guard or an index expression (conditional expression
+  vs `if` statement, `not n` vs `n == 0`, `a + b` vs `b + a`, merged guards, swapped branches …): they are checked
+  against harmlessly rewritten sources as well (Scratch/C03_SrcV*.lean).  So: every `if` / `match` is split, Bool
+  guards are turned into propositions, and all arithmetic goes to `omega`. -/
+
+/-- Bool-valued guards (`decide`, `!`, `&&`, `||`) → propositions, everywhere. -/
+macro "guards_to_prop" : tactic => `(tactic|
+  simp only [Bool.not_eq_true', Bool.not_eq_true, Bool.and_eq_true, Bool.or_eq_true, decide_eq_true_eq,
+    decide_eq_false_iff_not, Bool.not_eq_false', Bool.not_eq_false, Bool.and_eq_false_iff, Bool.or_eq_false_iff,
+    ne_eq, Bool.not_not] at *)
+
+/-- Decide every `if` whose condition follows (or whose negation follows) from the context by linear arithmetic. -/
+macro "eval_guards" : tactic => `(tactic| simp (disch := omega) only [if_pos, if_neg])
+
+/-- Split every `if` / `match`, then close each leaf: contradictory guards and index equalities by `omega`. -/
+macro "src_close" : tactic => `(tactic| (
+  (repeat' split) <;>
+  (try guards_to_prop) <;>
+  (try eval_guards) <;>
+  (try simp only [Except.ok.injEq, Except.error.injEq, Prod.mk.injEq, Option.some.injEq, reduceCtorEq,
+        true_and, and_true, and_self]) <;>
+  (try omega)))
+
 /-! ## `_validate_slice` -/
+
+theorem src_validate_slice_ok (n : Nat) (a b : Option Int)
+    (h : 0 ≤ boundOr n 0 a ∧ boundOr n 0 a ≤ boundOr n n b ∧ boundOr n n b ≤ n) :
+    Gen.Src.validate_slice (n : Int) a b = .ok (boundOr n 0 a, boundOr n n b) := by
+  rcases a with _ | a <;> rcases b with _ | b <;>
+    simp only [Gen.Src.validate_slice, boundOr] at h ⊢ <;> src_close
+
+theorem src_validate_slice_err (n : Nat) (a b : Option Int)
+    (h : ¬ (0 ≤ boundOr n 0 a ∧ boundOr n 0 a ≤ boundOr n n b ∧ boundOr n n b ≤ n)) :
+    Gen.Src.validate_slice (n : Int) a b = .error .value := by
+  rcases a with _ | a <;> rcases b with _ | b <;>
+    simp only [Gen.Src.validate_slice, boundOr] at h ⊢ <;> src_close
 
 /-- The translated `_validate_slice` in closed form over the model's `boundOr` (integer-valued result). -/
 theorem src_validate_slice (n : Nat) (a b : Option Int) :
     Gen.Src.validate_slice (n : Int) a b =
       if 0 ≤ boundOr n 0 a ∧ boundOr n 0 a ≤ boundOr n n b ∧ boundOr n n b ≤ n then
         .ok (boundOr n 0 a, boundOr n n b) else .error .value := by
-  have key : ∀ s e : Int,
-      (if (!(decide ((0 : Int) ≤ s) && decide (s ≤ e) && decide (e ≤ (n : Int)))) then
-        (.error .value : Except Err (Int × Int)) else .ok (s, e)) =
-      if 0 ≤ s ∧ s ≤ e ∧ e ≤ (n : Int) then .ok (s, e) else .error .value := by
-    intro s e
-    by_cases h : 0 ≤ s ∧ s ≤ e ∧ e ≤ (n : Int)
-    · simp [h]
-    · simp [h]; omega
-  rcases a with _ | a <;> rcases b with _ | b <;>
-    simp only [Gen.Src.validate_slice, boundOr, decide_eq_true_eq] <;> exact key _ _
+  by_cases h : 0 ≤ boundOr n 0 a ∧ boundOr n 0 a ≤ boundOr n n b ∧ boundOr n n b ≤ n
+  · rw [if_pos h]; exact src_validate_slice_ok n a b h
+  · rw [if_neg h]; exact src_validate_slice_err n a b h
 
 /-- `Bits._validate_slice` (bits.py) as the source has it now = `C03.validateSlice`, for every length and every pair
     of Optional bounds.  The source computes Python ints, the model returns the (then non-negative) bounds as `Nat`:
     both components are cast with `Int.toNat`; the error case is an equality of `Except` values. -/
 theorem validate_slice_eq (n : Nat) (a b : Option Int) :
     (Gen.Src.validate_slice (n : Int) a b).map (fun p => (p.1.toNat, p.2.toNat)) = validateSlice n a b := by
-  rw [src_validate_slice]; unfold validateSlice
-  split <;> simp_all [Except.map]
+  unfold validateSlice
+  by_cases h : 0 ≤ boundOr n 0 a ∧ boundOr n 0 a ≤ boundOr n n b ∧ boundOr n n b ≤ n
+  · rw [src_validate_slice_ok n a b h]; simp only [h, and_self, if_true, Except.map]
+  · rw [src_validate_slice_err n a b h]; simp only [h, if_false, Except.map]
 
 /-! ## rotation -/
 
@@ -79,82 +111,90 @@ def rolMeaning (l : Bits) : List Py.Act → Option (Except Err Bits)
   | [⟨"self._rol(_, _, _)", [some k, s, e]⟩] => interp (Gen.Src.rol_msb0 (l.length : Int) k s e) (rotMeaning l)
   | _ => none
 
-theorem rotMeaning_three (l : Bits) (p q n pos at_ : Int) :
-    rotMeaning l [⟨"L1 = self._slice(_, _)", [some p, some q]⟩, ⟨"self._delete(_, _)", [some n, some pos]⟩,
-     ⟨"self._insert(L1, _)", [some at_]⟩] =
-      if 0 ≤ p ∧ 0 ≤ q ∧ 0 ≤ n ∧ 0 ≤ pos ∧ 0 ≤ at_ then
-        some (match Alg._delete l n.toNat pos.toNat with
+/-- The three-effect trace under `rotMeaning`, with the recorded (integer) arguments related to the model's `Nat`
+    arguments by hypotheses — so that the caller never has to know how the source spells them. -/
+theorem rot_three_eq (l : Bits) (p q n pos at_ : Int) (p' q' n' pos' at' : Nat) (R : Except Err Bits)
+    (hp : p = p') (hq : q = q') (hn : n = n') (hpos : pos = pos') (hat : at_ = at')
+    (hR : R = match Alg._delete l n' pos' with
               | .error err => .error err
-              | .ok l' => Alg._insert l' (slc l p.toNat q.toNat) at_.toNat)
-      else none := by
+              | .ok l' => Alg._insert l' (slc l p' q') at') :
+    rotMeaning l [⟨"L1 = self._slice(_, _)", [some p, some q]⟩, ⟨"self._delete(_, _)", [some n, some pos]⟩,
+     ⟨"self._insert(L1, _)", [some at_]⟩] = some R := by
+  subst hp hq hn hpos hat hR
   simp [rotMeaning]
+  try (cases Alg._delete l n' pos' <;> rfl)
 
-/-- Python's `k % m` for `k ≥ 0`, `m > 0` is the model's `k.toNat % m`. -/
-theorem fmod_nat (k : Int) (hk : 0 ≤ k) (m : Nat) (hm : 0 < m) :
-    Int.fmod k (m : Int) = ((k.toNat % m : Nat) : Int) := by
+theorem rorMeaning_one (l : Bits) (k : Int) (s e : Option Int) :
+    rorMeaning l [⟨"self._ror(_, _, _)", [some k, s, e]⟩]
+      = interp (Gen.Src.ror_msb0 (l.length : Int) k s e) (rotMeaning l) := by
+  simp [rorMeaning]
+
+theorem rolMeaning_one (l : Bits) (k : Int) (s e : Option Int) :
+    rolMeaning l [⟨"self._rol(_, _, _)", [some k, s, e]⟩]
+      = interp (Gen.Src.rol_msb0 (l.length : Int) k s e) (rotMeaning l) := by
+  simp [rolMeaning]
+
+/-- Python's `k % m` for `k ≥ 0` and `m = z - a > 0` (however `m` is spelled) is the model's `k.toNat % (z - a)`. -/
+theorem fmod_nat (k : Int) (hk : 0 ≤ k) (a z : Nat) (haz : a < z) (m : Int) (hm : m = (z : Int) - (a : Int)) :
+    Int.fmod k m = ((k.toNat % (z - a) : Nat) : Int) := by
+  subst hm
   rw [Int.fmod_eq_emod_of_nonneg k (by omega)]
-  have : k = (k.toNat : Int) := by omega
-  rw [this, Int.toNat_natCast]; rfl
+  have h1 : k = (k.toNat : Int) := by omega
+  have h2 : (z : Int) - (a : Int) = ((z - a : Nat) : Int) := by omega
+  rw [h2, h1, Int.toNat_natCast]; rfl
+
+/-- Normalise the guards of the goal, decide them from the arithmetic facts in the context, flatten the trace. -/
+macro "run_guards" : tactic => `(tactic| (
+  try simp only [Bool.not_eq_true', Bool.not_eq_true, Bool.and_eq_true, Bool.or_eq_true, decide_eq_true_eq,
+    decide_eq_false_iff_not, Bool.not_eq_false', Bool.not_eq_false, Bool.and_eq_false_iff, Bool.or_eq_false_iff,
+    ne_eq, Bool.not_not, Except.bind]
+  try eval_guards
+  try simp only [interp, Except.map, List.nil_append, List.cons_append, List.append_assoc, List.singleton_append]))
+
+set_option hygiene false in
+/-- Shared proof of `ror_msb0_eq` / `rol_msb0_eq`, after both sides are unfolded: validate, then the two early
+    returns, then the three effects with their arguments compared by `omega`. -/
+macro "rot_msb0_proof" l:ident k:ident hk:ident s:ident e:ident : tactic => `(tactic| (
+  by_cases h : 0 ≤ boundOr ($l).length 0 $s ∧ boundOr ($l).length 0 $s ≤ boundOr ($l).length (($l).length : Int) $e
+      ∧ boundOr ($l).length (($l).length : Int) $e ≤ (($l).length : Int)
+  · rw [src_validate_slice_ok _ _ _ h]
+    simp only [h, and_self, if_true]
+    generalize boundOr ($l).length 0 $s = a at h ⊢
+    generalize boundOr ($l).length (($l).length : Int) $e = z at h ⊢
+    obtain ⟨a, rfl⟩ := Int.eq_ofNat_of_zero_le h.1
+    obtain ⟨z, rfl⟩ := Int.eq_ofNat_of_zero_le (by omega : 0 ≤ z)
+    simp only [Except.bind, Int.toNat_natCast]
+    by_cases haz : a = z
+    · run_guards
+      simp [rotMeaning]
+    · have hfm := fmod_nat $k $hk a z (by omega)
+      simp (disch := omega) only [hfm]
+      have hr : ($k).toNat % (z - a) < z - a := Nat.mod_lt _ (by omega)
+      generalize ($k).toNat % (z - a) = r at hr ⊢
+      by_cases hr0 : r = 0
+      · run_guards
+        simp [rotMeaning]
+      · run_guards
+        first
+          | (refine rot_three_eq $l _ _ _ _ _ (z - r) z r (z - r) a _ ?_ ?_ ?_ ?_ ?_ ?_ <;>
+              first | omega | (cases Alg._delete $l r (z - r) <;> rfl))
+          | (refine rot_three_eq $l _ _ _ _ _ a (a + r) r a (z - r) _ ?_ ?_ ?_ ?_ ?_ ?_ <;>
+              first | omega | (cases Alg._delete $l r a <;> rfl))
+  · rw [src_validate_slice_err _ _ _ h]
+    simp only [h, if_false, Except.bind, interp]))
 
 /-- `BitArray._ror_msb0` as the source has it now = `Alg._ror`.  `0 ≤ k` is the condition under which `_ror` is
     called (`ror` rejects `bits < 0` first); the public statement `ror_eq` needs no hypothesis. -/
 theorem ror_msb0_eq (l : Bits) (k : Int) (hk : 0 ≤ k) (s e : Option Int) :
     interp (Gen.Src.ror_msb0 (l.length : Int) k s e) (rotMeaning l) = some (Alg._ror l k s e) := by
-  unfold Gen.Src.ror_msb0 Alg._ror
-  rw [src_validate_slice]; unfold validateSlice
-  simp only []
-  generalize boundOr l.length 0 s = a
-  generalize boundOr l.length (l.length : Int) e = z
-  by_cases h : 0 ≤ a ∧ a ≤ z ∧ z ≤ (l.length : Int)
-  · obtain ⟨a, rfl⟩ := Int.eq_ofNat_of_zero_le h.1
-    obtain ⟨z, rfl⟩ := Int.eq_ofNat_of_zero_le (by omega : 0 ≤ z)
-    simp only [h, and_self, if_true, Except.bind, Int.toNat_natCast]
-    by_cases haz : a = z
-    · subst haz; simp [interp, rotMeaning]
-    · have hfm : Int.fmod k ((z : Int) - (a : Int)) = ((k.toNat % (z - a) : Nat) : Int) := by
-        rw [← fmod_nat k hk (z - a) (by omega)]; congr 1; omega
-      rw [hfm]
-      have hr : k.toNat % (z - a) < z - a := Nat.mod_lt _ (by omega)
-      generalize k.toNat % (z - a) = r at hr ⊢
-      by_cases hr0 : r = 0
-      · subst hr0; simp [interp, rotMeaning]
-      · have h1 : ((z : Int) - (r : Int)).toNat = z - r := by omega
-        have h2 : ¬ (z - a = 0) := by omega
-        have h4 : ¬ ((a : Int) = (z : Int)) := by omega
-        simp [interp, rotMeaning_three, hr0, h1, h2, h4]
-        and_intros
-        all_goals first | omega | (cases Alg._delete l r (z - r) <;> rfl)
-  · simp [h, interp, Except.bind]
+  unfold Gen.Src.ror_msb0 Alg._ror validateSlice
+  rot_msb0_proof l k hk s e
 
 /-- `BitArray._rol_msb0` as the source has it now = `Alg._rol` (called only with `0 ≤ k`, see `rol_eq`). -/
 theorem rol_msb0_eq (l : Bits) (k : Int) (hk : 0 ≤ k) (s e : Option Int) :
     interp (Gen.Src.rol_msb0 (l.length : Int) k s e) (rotMeaning l) = some (Alg._rol l k s e) := by
-  unfold Gen.Src.rol_msb0 Alg._rol
-  rw [src_validate_slice]; unfold validateSlice
-  simp only []
-  generalize boundOr l.length 0 s = a
-  generalize boundOr l.length (l.length : Int) e = z
-  by_cases h : 0 ≤ a ∧ a ≤ z ∧ z ≤ (l.length : Int)
-  · obtain ⟨a, rfl⟩ := Int.eq_ofNat_of_zero_le h.1
-    obtain ⟨z, rfl⟩ := Int.eq_ofNat_of_zero_le (by omega : 0 ≤ z)
-    simp only [h, and_self, if_true, Except.bind, Int.toNat_natCast]
-    by_cases haz : a = z
-    · subst haz; simp [interp, rotMeaning]
-    · have hfm : Int.fmod k ((z : Int) - (a : Int)) = ((k.toNat % (z - a) : Nat) : Int) := by
-        rw [← fmod_nat k hk (z - a) (by omega)]; congr 1; omega
-      rw [hfm]
-      have hr : k.toNat % (z - a) < z - a := Nat.mod_lt _ (by omega)
-      generalize k.toNat % (z - a) = r at hr ⊢
-      by_cases hr0 : r = 0
-      · subst hr0; simp [interp, rotMeaning]
-      · have h1 : ((z : Int) - (r : Int)).toNat = z - r := by omega
-        have h2 : ¬ (z - a = 0) := by omega
-        have h3 : ((a : Int) + (r : Int)).toNat = a + r := by omega
-        have h4 : ¬ ((a : Int) = (z : Int)) := by omega
-        simp [interp, rotMeaning_three, hr0, h1, h2, h3, h4]
-        and_intros
-        all_goals first | omega | (cases Alg._delete l r a <;> rfl)
-  · simp [h, interp, Except.bind]
+  unfold Gen.Src.rol_msb0 Alg._rol validateSlice
+  rot_msb0_proof l k hk s e
 
 /-- `BitArray.ror` as the source has it now (guards, then `_ror` = `_ror_msb0`, then `_slice` / `_delete` / `_insert`)
     = `Alg.ror`, for every content, every integer amount (negative included: both sides are ValueError) and all
@@ -162,23 +202,15 @@ theorem rol_msb0_eq (l : Bits) (k : Int) (hk : 0 ≤ k) (s e : Option Int) :
 theorem ror_eq (l : Bits) (k : Int) (s e : Option Int) :
     interp (Gen.Src.ror (l.length : Int) k s e) (rorMeaning l) = some (Alg.ror l k s e) := by
   unfold Gen.Src.ror Alg.ror
-  by_cases h0 : l.length = 0
-  · simp [h0, interp]
-  · by_cases hk : k < 0
-    · simp [h0, hk, interp]
-    · simp [h0, hk, interp, rorMeaning]
-      exact ror_msb0_eq l k (by omega) s e
+  by_cases h0 : l.length = 0 <;> by_cases hk : k < 0 <;> run_guards
+  exact (rorMeaning_one l k s e).trans (ror_msb0_eq l k (by omega) s e)
 
 /-- `BitArray.rol` as the source has it now = `Alg.rol`.  No hypothesis. -/
 theorem rol_eq (l : Bits) (k : Int) (s e : Option Int) :
     interp (Gen.Src.rol (l.length : Int) k s e) (rolMeaning l) = some (Alg.rol l k s e) := by
   unfold Gen.Src.rol Alg.rol
-  by_cases h0 : l.length = 0
-  · simp [h0, interp]
-  · by_cases hk : k < 0
-    · simp [h0, hk, interp]
-    · simp [h0, hk, interp, rolMeaning]
-      exact rol_msb0_eq l k (by omega) s e
+  by_cases h0 : l.length = 0 <;> by_cases hk : k < 0 <;> run_guards
+  exact (rolMeaning_one l k s e).trans (rol_msb0_eq l k (by omega) s e)
 
 /-! ## `*=` -/
 
@@ -192,15 +224,16 @@ def imulMeaning (l : Bits) : List Py.Act → Option Bits
   | [⟨"return self._imul(_)", [some n]⟩] => imulPrim l n
   | _ => none
 
+theorem imulMeaning_one (l : Bits) (n : Int) :
+    imulMeaning l [⟨"return self._imul(_)", [some n]⟩] = imulPrim l n := by
+  simp [imulMeaning]
+
 /-- `BitArray.__imul__` as the source has it now = `Alg.imul`, for every content and every integer. -/
 theorem imul_eq (l : Bits) (n : Int) :
     (Gen.Src.imul (l.length : Int) n).map (imulMeaning l) = (Alg.imul l n).map some := by
   unfold Gen.Src.imul Alg.imul
-  by_cases hn : n < 0
-  · simp [hn, Except.map]
-  · by_cases h0 : n = 0
-    · subst h0; simp [Except.map, imulMeaning, imulPrim]
-    · simp [hn, h0, Except.map, imulMeaning, imulPrim]
+  by_cases hn : n < 0 <;> by_cases h0 : n = 0 <;> (try (exfalso; omega)) <;> run_guards <;>
+    (try simp only [imulMeaning_one, imulPrim]) <;> (try eval_guards)
 
 /-! ## non-vacuity -/
 
